@@ -18,7 +18,7 @@ use std::{
     io::{BufRead, Write},
     sync::{
         Arc, Mutex,
-        atomic::{AtomicBool, Ordering},
+        atomic::{AtomicBool, AtomicU64, Ordering},
     },
     time::{Duration, Instant},
 };
@@ -30,7 +30,7 @@ use iroh::{
     verif_hooks::{c30 as hook, sched},
 };
 
-const BLOCK_MS: u64 = 150;
+const BLOCK_MS: u64 = 120;
 const PROGRESS_MS: u64 = 20_000;
 const P_AFTER_SERVICES: &str = "lookup.publish.after_services";
 const P_BEFORE_STORE: &str = "lookup.publish.before_store";
@@ -157,6 +157,27 @@ fn coq_op(op: &Op) -> String {
 }
 
 // ---------- the scheduler ----------
+fn own_tid() -> u64 {
+    std::fs::read_link("/proc/thread-self")
+        .ok()
+        .and_then(|p| p.file_name().and_then(|f| f.to_str().and_then(|s| s.parse().ok())))
+        .unwrap_or(0)
+}
+
+/// true if the OS reports the thread as sleeping (blocked), e.g. in a futex wait
+fn thread_sleeps(tid: u64) -> bool {
+    if tid == 0 {
+        return false;
+    }
+    match std::fs::read_to_string(format!("/proc/self/task/{tid}/stat")) {
+        Ok(s) => match s.rfind(')') {
+            Some(i) => matches!(s[i + 1..].trim_start().chars().next(), Some('S') | Some('D')),
+            None => false,
+        },
+        Err(_) => false,
+    }
+}
+
 #[derive(Clone, Copy, PartialEq, Debug)]
 enum Th {
     Fresh,
@@ -173,6 +194,8 @@ struct Case {
     ops: Vec<Op>,
     th: Vec<Th>,
     done: Vec<Arc<AtomicBool>>,
+    /// OS thread id of each call's thread (0 = not running yet)
+    tid: Vec<Arc<AtomicU64>>,
     handles: Vec<std::thread::JoinHandle<()>>,
     events: Vec<String>,
 }
@@ -192,6 +215,7 @@ impl Case {
     fn wait_for(&self, t: usize, terminal: bool, timeout: Duration) -> Seen {
         let held = self.held_tickets();
         let deadline = Instant::now() + timeout;
+        let hard = Instant::now() + Duration::from_millis(PROGRESS_MS);
         loop {
             if self.done[t].load(Ordering::SeqCst) {
                 return Seen::Returned;
@@ -206,7 +230,13 @@ impl Case {
                 }
             }
             if Instant::now() >= deadline {
-                return Seen::Nothing;
+                // "waits for a lock" only if the OS says the thread sleeps; a thread that is
+                // merely slow (runnable, or not started yet) gets more time
+                if thread_sleeps(self.tid[t].load(Ordering::SeqCst)) || Instant::now() >= hard {
+                    return Seen::Nothing;
+                }
+                std::thread::sleep(Duration::from_millis(5));
+                continue;
             }
             std::thread::sleep(Duration::from_micros(100));
         }
@@ -217,7 +247,9 @@ impl Case {
         let op = self.ops[t].clone();
         let log = self.log.clone();
         let done = self.done[t].clone();
+        let tid = self.tid[t].clone();
         let h = std::thread::spawn(move || {
+            tid.store(own_tid(), Ordering::SeqCst);
             let _ = catch(|| match op {
                 Op::Publish(d) => {
                     IN_PUBLISH.with(|c| c.set(true));
@@ -333,6 +365,7 @@ fn run_case(filter: u64, ops: Vec<Op>, choices: &[usize]) -> (Vec<String>, Optio
         ops,
         th: vec![Th::Fresh; n],
         done: (0..n).map(|_| Arc::new(AtomicBool::new(false))).collect(),
+        tid: (0..n).map(|_| Arc::new(AtomicU64::new(0))).collect(),
         handles: Vec::new(),
         events: Vec::new(),
     };
